@@ -60,6 +60,12 @@ def build(tier, seed):
     _host.__name__ = "host_block"
     tasks.append(a_task(PROP, _host))
     tasks.append(bounded_task())
+    # fixed-form sources reach the parser through convertToFree: what it does to continuation, comment and blank lines decides the entity tree of such a file (C14's stand-ins)
+    tasks.append(standin_task(PROP, "reader.fixed_vs_free", lambda: __import__("bounded.c14", fromlist=["x"]).search(seed, keep_n=400), "ford.reader.FortranReader(fixed=True) = convertToFree + free-form reader",
+                              "one token-level program rendered in fixed and in free form (continuation character, comment lines between continuation lines, labels, sequence field): same statements",
+                              "400 renderings drawn (seeded) from the full product", 400))
+    tasks.append(standin_task(PROP, "project.form_by_extension", lambda: __import__("bounded.c14", fromlist=["x"]).form_by_extension(), "ford.fortran_project.Project (real)",
+                              "one fixed-form module per fixed extension and one free-form module per free extension, with continuation lines: every module and variable is found", "9 files", 9))
     meta = {
         "trusted_base": TRUSTED_BASE,
         "assumptions": PYVC_ASSUMPTIONS + REVC_ASSUMPTIONS + [
